@@ -19,6 +19,9 @@ def decode(p):
             return {"kind": "debugged run vs plain run", "threads": int(f[1]), "breakOnStart": f[2][0] == "1",
                     "breakOnError": f[2][1] == "1", "breakpoint_edits": f[3], "script": f[4], "timing": f[5],
                     "seed": f[6], "visit_trace_events": len(f[7].split(",")), "program": src}
+        if f[0] == "S":
+            return {"kind": "sink program on pool workers", "workers": int(f[1]), "events": int(f[2]), "breakpoint_edits": f[3],
+                    "script": f[4], "program": src}
         if f[0] == "K":
             return {"kind": "StopThreads", "threads": int(f[1]), "breakpoint_edits": f[2], "program": src}
     except Exception:
@@ -41,12 +44,31 @@ def post(ctx, cases, gores, model):
     cov["hooks_present"] = hooks
     cov["traces_validated_against_impl"] = 0
     cov["handshake_events_replayed"] = 0
+    # per-thread visit traces of the sink cases (pool workers): the model must suspend exactly where the thread did
+    vts = []
+    for fn in sorted(glob.glob(os.path.join(ctx.work, "c15-vt.*.txt"))):
+        for l in open(fn, errors="replace"):
+            l = l.rstrip("\n")
+            if "\t" in l:
+                vts.append(tuple(l.split("\t", 1)))
+    cov["sink_thread_traces_validated"] = 0
+    if vts:
+        res = checklib.run_driver(ctx, ctx.prop, {i: tr for i, (tr, _) in enumerate(vts)}, args=["vt"], shards=4)
+        badv = [i for i in sorted(res) if res[i][0] != "ok"]
+        cov["sink_thread_traces_validated"] = len(res) - len(badv)
+        for i in badv[:2]:
+            tr, payload = vts[i]
+            rp = checklib.write_replay(ctx, "vtrace", {"payload": payload, "readable": decode(payload), "thread_trace": tr},
+                                       "the model suspends exactly at the `!` marks of the recorded per-thread trace",
+                                       res[i][0], f"./check {ctx.prop} --replay <this file>", tag=tr)
+            checklib.violation(ctx, rp, f"per-thread trace of a pool worker differs from the model: {res[i][0]}")
     if not hooks:
         ctx.notes.append("interpreter/debug.go of the tree under test has no verifhook call sites (hooks/C15.patch not "
                          "applied): the window / random schedules fell back to polling and no handshake trace was recorded")
     if lines:
         res = checklib.run_driver(ctx, ctx.prop, {i: tr for i, (tr, _) in enumerate(lines)}, args=["hs"], shards=4)
-        bad = [i for i in sorted(res) if not res[i][0].startswith("ok ")]
+        # a trace must be accepted AND end with the thread executing again (`m,w` = parked for ever is not ok)
+        bad = [i for i in sorted(res) if not (res[i][0].startswith("ok ") and res[i][0].endswith(".run"))]
         # a trace must also end with the thread executing again unless the case hung
         cov["traces_validated_against_impl"] = len(res) - len(bad)
         cov["handshake_events_replayed"] = sum(len(tr.split(",")) for tr, _ in lines)
@@ -55,7 +77,7 @@ def post(ctx, cases, gores, model):
             rp = checklib.write_replay(ctx, "trace", {"payload": payload, "readable": decode(payload), "handshake_trace": tr},
                                        "every recorded hook event is a step of Hs.step (lean/Ecal/Model/Debug.lean)",
                                        res[i][0], f"./check {ctx.prop} --replay <this file>", tag=tr)
-            checklib.violation(ctx, rp, f"handshake trace not accepted by the model: {res[i][0]}")
+            checklib.violation(ctx, rp, f"handshake trace not accepted by the model or thread left parked: {res[i][0]}")
 
 
 def extract(ctx):
@@ -70,7 +92,7 @@ def extract(ctx):
     unres = txt.split("def unresolved")[1]
     unknown += ["unresolved: " + a + " in " + f for f, a in re.findall(r'\("([^"]*)", "([^"]*)"\)', unres)]
     acc = re.findall(r'\("([^"]*)", "([^"]*)"\)', txt.split("def observerAccesses")[1].split("def ownWrites")[0])
-    cov["fact_debugger_is_read_only"] = "unknown" if unknown else "established-or-refuted-by-lean (observer_accesses_allowed, own_writes_locked, debugger_read_at_eval_time)"
+    cov["fact_debugger_is_read_only"] = "unknown" if unknown else "established-or-refuted-by-lean (observer_accesses_allowed, own_writes_locked, own_reads_locked, visit_returns_nil, debugger_read_at_eval_time)"
     cov["fact_accesses"] = sorted(set(a for _, a in acc))
     cov["fact_debugger_uses"] = sorted(set(a for _, a in re.findall(r'\("([^"]*)", "([^"]*)"\)', txt.split("def debuggerUses")[1].split("def debuggerFields")[0])))
     cov["fact_functions_reachable"] = len(re.findall(r'"', txt.split("def reachable")[1].split("\n")[0])) // 2
@@ -101,7 +123,7 @@ SPEC = dict(
     rule=("cases = generated terminating programs (functions incl. bounded recursion and nested calls, loops, try/except/"
           "finally with raised and runtime errors, lists/maps, log output) x break point edit sequences (set/disable/"
           "remove) x scripts over {resume, stepin, stepover, stepout} with break point edits while suspended x "
-          "breakOnStart/breakOnError x 1-4 threads x life cycle (library `lib` and program `main` loaded in steps, debugger attached before any parse / after the library ran / between two evaluations of the same AST / detached and re-attached / after parsing everything; break points on both sides of the attach point) x timing {poll, window = Continue issued exactly between 'marked "
+          "breakOnStart/breakOnError x 1-4 threads x life cycle (library `lib` and program `main` loaded in steps, debugger attached before any parse / after the library ran / between two evaluations of the same AST / detached and re-attached / after parsing everything / by the program itself inside a function call; break points on both sides of the attach point) x timing {poll, window = Continue issued exactly between 'marked "
           "suspended' and Wait via hook points, random delays at the hook points}; plus StopThreads cases. Compared: "
           "same=1 (result, error, log, global scope dump equal to the plain run) and the lines at which threads REPORT "
           "suspension (status/describe commands) against the model run on the visit trace recorded from the real "
@@ -127,11 +149,17 @@ META = dict(
                "trace and (b) the suspend/continue handshake as a transition system; correspondence: debugged vs plain runs of the "
                "real interpreter, reported suspension lines vs the model, recorded handshake traces replayed on the transition system, "
                "directed 'Continue inside the window' schedule"),
-    level_text=("Proof (model): no reachable handshake state has the thread waiting with running=true; a Continue to a thread reported "
-                "suspended is accepted, completes and leaves the thread with enabled steps back to execution; StopThreads releases every "
-                "suspended thread (any number); suspension at an active break point whenever a thread in any debugging situation arrives from another line, no re-suspension on the same line after resume, "
-                "step-in/over/out targets for arbitrary balanced call nesting; the old code's lost resume is a reachable stuck state. "
-                "Transparency of the Go debugger (same result, log, variables) is tested metamorphically, not proved."),
+    level_text=("Proof (model): no reachable handshake state has the thread waiting with running=true; after Continue's check EVERY "
+                "interleaving of controller and thread steps is at most 12 steps long and ends with the thread executing again with the "
+                "command (continue_always_releases); StopThreads on a suspended thread is a schedule of the same transition system and "
+                "releases it (no Continue of another controller in flight); suspension at an active break point whenever a thread in any "
+                "debugging situation arrives from another position (source AND line), no re-suspension on the same line after resume, "
+                "step-in/over/out targets for arbitrary balanced call nesting; attaching never crashes the thread; the old code's lost resume "
+                "is a reachable stuck state. Regenerated facts (type-checked extraction, three-valued): what the debugger's evaluator side "
+                "touches, maps only under the lock on both sides, debugger read at evaluation time, visit functions return nil. "
+                "Transparency of the Go debugger (same result, log, variables) is tested metamorphically, not proved; concurrency of several "
+                "controllers and threads is tested (process survives), not modelled (the model is per thread, break points shared only "
+                "through edits made while that thread is suspended)."),
     level_note=("Trusted: Lean kernel + propext/Classical.choice/Quot.sound; harness (recording wrapper, controller, comparison); Go's "
                 "sync primitives."),
 )
